@@ -33,6 +33,11 @@ def _lin(x, a=1.0, b=0.5):
     return a + b * x
 
 
+def _lin_neg(x, a=1.0, b=-0.1):
+    """linear, start values feasible for a slope bounded above by exactly 0"""
+    return a + b * x
+
+
 def _power3(x, a=0.1, b=1.4, c=0.3):
     return a + b * x ** c
 
@@ -55,9 +60,12 @@ def _w1(x, y):
 # name -> (function, bounds, weights): all four combinations of bounds / weights for the linear one
 DEPFUNCS = {"lin": (_lin, None, None), "lin_w": (_lin, None, _w1), "lin_b": (_lin, [(None, None), (-50, 50)], None),
             "lin_bw": (_lin, [(None, None), (-50, 50)], _w1),
+            # slope bounded above by EXACTLY 0 (active whenever the estimates grow with the conditioning value), and a lower bound 0
+            "lin_ub0": (_lin_neg, [(None, None), (None, 0)], None), "lin_ub0w": (_lin_neg, [(0, None), (None, 0)], _w1),
+            "lin_lb0": (_lin, [(None, None), (0, None)], None),
             "power3": (_power3, [(0, None), (0, None), (None, None)], None),
             "exp3": (_exp3, [(0, None), (0, None), (None, None)], None)}
-LIN_KINDS = ["lin", "lin_w", "lin_b", "lin_bw"]
+LIN_KINDS = ["lin", "lin_w", "lin_b", "lin_bw", "lin_ub0", "lin_ub0w", "lin_lb0"]
 
 
 def make_template(V, name):
@@ -430,7 +438,11 @@ def gen_case(ctx, k, big=False):
         # dependence functions with every combination of bounds / weights in turn
         for dm in spec["dims"]:
             if dm["conditional_on"] is not None:
-                dm["deps"] = {pn: LIN_KINDS[(k // 10 + j) % 4] for j, pn in enumerate(dm["deps"])}
+                dm["deps"] = {pn: LIN_KINDS[(k // 10 + j) % len(LIN_KINDS)] for j, pn in enumerate(dm["deps"])}
+        if (k // 10) % 2 == 0:      # the first conditional parameter's slope bound of exactly 0 is active in the generated data
+            for dm in spec["dims"]:
+                if dm["conditional_on"] is not None:
+                    dm["deps"][next(iter(dm["deps"]))] = "lin_ub0" if (k // 20) % 2 == 0 else "lin_ub0w"
     if k % 10 == 4:
         # float coincidences: decimal widths (no binary fractions) with conditioning values rounded to one decimal,
         # i.e. many observations exactly on interval edges
@@ -801,6 +813,14 @@ def independent_dep_fit(b, i, pn, c):
     except Exception:
         return None
     _DEP_REFITS[(df.bounds is not None, df.weights is not None)] = _DEP_REFITS.get((df.bounds is not None, df.weights is not None), 0) + 1
+    if df.bounds is not None:
+        for v, (lo, hi) in zip(c["post"], df.bounds):
+            if (lo is not None and v < lo - 1e-12) or (hi is not None and v > hi + 1e-12):
+                return ({"clause": "dependence-fit", "kind": "outside-bounds"},
+                        "dimension %d: dependence function of %s has parameters %r outside its declared bounds %r (independent bounded fit: %r)" % (
+                            i, pn, c["post"], df.bounds, [float(q) for q in popt]))
+            if hi == 0 and abs(v) <= 1e-9:
+                _DEP_REFITS["active upper bound 0"] = _DEP_REFITS.get("active upper bound 0", 0) + 1
     if not all(relclose(float(a), float(bb), 1e-6, 1e-9) for a, bb in zip(popt, c["post"])):
         return ({"clause": "dependence-fit", "kind": "independent-fit", "bounds": df.bounds is not None, "weights": df.weights is not None},
                 "dimension %d: dependence function of %s (bounds %s, weights %s) has parameters %r, an independent fit to the "
@@ -1605,7 +1625,7 @@ def run(ctx):
             rep = dict(ec, data=[[float(v) for v in r] for r in np.asarray(ec["data"], dtype=float)])
             if ctx.violation(o[0], "joint fit (%s, %d rows): %s" % (label, len(ec["data"]), o[1]), rep):
                 extra_found += 1
-    ctx.notes["independent_dependence_fits (bounds set, weights set)"] = {str(k): v for k, v in sorted(_DEP_REFITS.items())}
+    ctx.notes["independent_dependence_fits (bounds set, weights set)"] = {str(k): v for k, v in sorted(_DEP_REFITS.items(), key=str)}
     ctx.notes["seconds_total_before_finish"] = round(_t.time() - ctx.t0, 1)
     if ctx.notes.get("oracle_crashes", 0) > max(2, len(order) // 4):
         ctx.broken.append(("search", "property oracle crashed on %d cases" % ctx.notes["oracle_crashes"], ctx.notes.get("oracle_crash_last", "")))
